@@ -89,7 +89,7 @@ pub fn fri_formula(
         4 => fri_formula4(values, eval_point, x_inv),
         8 => fri_formula8(values, eval_point, x_inv),
         16 => fri_formula16(values, eval_point, x_inv),
-        _ => panic!("Invalid coset size: {}", coset_size),
+        _ => Err(Error::InvalidCosetSize { got: coset_size }),
     }
 }
 
@@ -101,4 +101,6 @@ pub enum Error {
     InvalidValuesLength { expected: usize, got: usize },
     #[error("BigInt conversion Error")]
     TryFromBigInt(#[from] TryFromBigIntError<BigUint>),
+    #[error("Invalid coset size: {got}")]
+    InvalidCosetSize { got: u64 },
 }
